@@ -344,3 +344,27 @@ Theorem c15_resolver_per_target : forall us vf h i log init sched,
   exists ps vs, r_pushes r = ps ++ [Ok vs] /\ NoDup vs /\ forall v, In v vs <-> live (us i) (spec_etcd (project i h)) v.
 Proof. exact resolver_per_target. Qed.
 Print Assumptions c15_resolver_per_target.
+
+(* ---------------------------------------------------------------- round 8 *)
+(* The connection-state watcher (sw_update = updateState applied to every state it reads). Once it has read a failed
+   state, WHATEVER it reads before it reads Ready (nothing, Connecting, further failures: the connection may already be
+   Ready again before its next wait, which then returns at once) the reload listeners run when it reads Ready --
+   exactly once; and without a failed state read there is no reload. *)
+Theorem c15_watcher_reload_once : forall w mid, w_disc w = true -> Forall (fun s => s <> SReady) mid ->
+  let w' := sw_run w (mid ++ [SReady]) in
+  w_notified w' = S (w_notified w) /\ w_disc w' = false /\ w_cur w' = SReady.
+Proof. exact sw_reload_once. Qed.
+Print Assumptions c15_watcher_reload_once.
+
+Theorem c15_watcher_no_spurious_reload : forall rs w, w_disc w = false ->
+  Forall (fun s => s <> SFailure /\ s <> SShutdown) rs ->
+  w_notified (sw_run w rs) = w_notified w /\ w_disc (sw_run w rs) = false.
+Proof. exact sw_no_spurious. Qed.
+Print Assumptions c15_watcher_no_spurious_reload.
+
+(* a blink the watcher never reads (Ready -> failure -> Ready between its wake-up and its GetState) is not followed by a
+   reload: the code only knows the states it reads *)
+Example c15_watcher_unseen_blink :
+  w_notified (sw_run (mkW false SReady 0) [SReady]) = 0 /\
+  w_notified (sw_run (mkW false SReady 0) [SFailure; SConnecting; SReady]) = 1.
+Proof. split; reflexivity. Qed.
